@@ -110,6 +110,12 @@ type Source interface {
 	Choose(label string, n int) int
 }
 
+// ChooserFrom is implemented by sources that want to know which values of a
+// choice are meaningful at this point (a generating source draws among them).
+type ChooserFrom interface {
+	ChooseFrom(label string, n int, valid []int) int
+}
+
 // Class returns the class of a choice label.
 func Class(label string) string {
 	if i := strings.IndexByte(label, '.'); i >= 0 {
